@@ -1184,6 +1184,38 @@ def rule_index_cover(ctx):
     return obs
 
 
+_MODEL_CACHE = {}
+
+
+def _fn_fingerprint(f):
+    """identity of a function body across units (the driver has no template arguments of its own: every unit holds the same
+    instantiation-independent copy, and the model check need only run once): the tree of node classes, operators, names,
+    callee names and literal values, without the per-unit declaration and type numbers"""
+    import hashlib
+    h = hashlib.sha1()
+    keys = ('c', 'op', 'n', 'v', 'ck', 'cn', 'ct', 'postfix', 'dk', 'l', 'ct_inlined')
+    st = [f.body]
+    while st:
+        i = st.pop()
+        if not i:
+            h.update(b'0')
+            continue
+        nd = f.n(i)
+        h.update(repr([(k, nd.get(k)) for k in keys if k in nd]).encode())
+        h.update(str(len(nd['ch'])).encode())
+        st.extend(reversed(nd['ch']))
+    h.update(repr([(b_['id'], len(b_['elems']), b_['succs']) for b_ in f.cfg['blocks']]).encode())
+    h.update(repr(sorted(f.targs.items())).encode())
+    return h.hexdigest()
+
+
+def _retarget(obs, f):
+    out = []
+    for o in obs:
+        out.append(Ob(o.rule, f, o.node, o.required, o.found, o.status, arm=o.arm, detail=o.detail))
+    return out
+
+
 def _pre(f, t):
     return nocast(strip_cast(_resolve_succ_locals(f, t)))
 
@@ -1204,8 +1236,13 @@ def _seg_model(f):
     cached = getattr(f, '_seg_model_obs', None)
     if cached is not None:
         return cached
+    fp = ('seg', _fn_fingerprint(f))
+    if fp in _MODEL_CACHE:
+        f._seg_model_obs = _retarget(_MODEL_CACHE[fp], f)
+        return f._seg_model_obs
     obs = []
     f._seg_model_obs = obs
+    _MODEL_CACHE[fp] = obs
     fd_ = feeder_of(f)
     if fd_ is None:
         return obs
@@ -1330,6 +1367,12 @@ def rule_in_range(ctx):
     suite cannot see: in(n) is one element past the caller's array, and the value read is discarded."""
     obs = []
     for f in six(ctx):
+        fp = ('inrange', _fn_fingerprint(f))
+        if fp in _MODEL_CACHE:
+            obs += _retarget(_MODEL_CACHE[fp], f)
+            continue
+        n0 = len(obs)
+        _MODEL_CACHE[fp] = None
         g = graph(f)
         Nn, Sn, En = f.params[0]['name'], f.params[1]['name'], f.params[2]['name']
         INP = f.params[4]['name']
@@ -1374,9 +1417,11 @@ def rule_in_range(ctx):
         req = 'every read in(e) of the segmentation driver has 0 <= e < n on every path that reaches it'
         if undecided:
             obs.append(Ob('IN-RANGE', f, 0, req, undecided, UNDECIDED, arm='driver'))
+            _MODEL_CACHE[fp] = obs[n0:]
             continue
         if len(sites) < 3:
             obs.append(Ob('IN-RANGE', f, 0, req, f"only {len(sites)} reads of the input found", UNDECIDED, arm='driver'))
+            _MODEL_CACHE[fp] = obs[n0:]
             continue
 
         def holds(t, lab, env, D):
@@ -1435,6 +1480,9 @@ def rule_in_range(ctx):
             obs.append(Ob('IN-RANGE', f, bad[0], req, bad[1], VIOLATED, arm='driver'))
         else:
             obs.append(Ob('IN-RANGE', f, sites[0][0], req, f"{len(sites)} reads stay inside [0, n) in {n_models} abstract models", OK, arm='driver'))
+        _MODEL_CACHE[fp] = obs[n0:]
+    for k_ in [k_ for k_, v_ in _MODEL_CACHE.items() if v_ is None]:
+        del _MODEL_CACHE[k_]
     return obs
 
 
